@@ -493,17 +493,22 @@ func (w *renderer) line(level int, kw string, params []string, annotation string
 		}
 		w.b.WriteString(p)
 	}
+	// the blank between the last parameter and what follows it on the line may be a tab
+	gap := " "
+	if w.st.Trailing && w.chance(1, 3) {
+		gap = []string{"\t", " \t", "\t "}[w.st.r.Intn(3)]
+	}
 	if annotation != "" {
 		if w.chance(1, 3) {
-			w.b.WriteString(" /* " + annotation + " */")
+			w.b.WriteString(gap + "/* " + annotation + " */")
 		} else {
-			w.b.WriteString(" // " + annotation)
+			w.b.WriteString(gap + "// " + annotation)
 		}
 	} else if w.st.Comments && w.chance(1, 6) {
-		w.b.WriteString(" # trailing comment")
+		w.b.WriteString(gap + "# trailing comment")
 	}
 	if w.st.Trailing && w.chance(1, 4) {
-		w.b.WriteString("  ")
+		w.b.WriteString([]string{"  ", "\t", " \t", "\t "}[w.st.r.Intn(4)])
 	}
 	w.b.WriteString(w.st.NL)
 }
